@@ -137,6 +137,10 @@ KINDS = {
     "pkl-bound": Kind("pkl-bound", ".pkl", lambda c: {"payload": c}, lambda a, b: a == b, lambda: args_handler(True),
                       {"divide": 5}, {"scale": 5}),
     "pkl": Kind("pkl", ".pkl", lambda c: {"payload": c, "blob": bytes(range(c * 3))}, lambda a, b: a == b, pickle_handler),
+    # pkl-guard: the fileset restricts {tag} by a regex of its own and a FOREIGN file (tag Q7) lies in its directories
+    "pkl-guard": Kind("pkl-guard", ".pkl", lambda c: {"payload": c, "blob": bytes(range(c * 3))}, lambda a, b: a == b, pickle_handler),
+    # pkl-falsy: valid contents that are falsy (empty dict, empty list, zero)
+    "pkl-falsy": Kind("pkl-falsy", ".pkl", lambda c: [{}, [], 0][c - 1], lambda a, b: type(a) is type(b) and a == b, pickle_handler),
     "pkl.zip": Kind("pkl.zip", ".pkl.zip", lambda c: {"payload": c, "blob": bytes(range(c * 3))}, lambda a, b: a == b, pickle_handler),
     "pkl-post": Kind("pkl-post", ".pkl", lambda c: {"payload": c}, lambda a, b: isinstance(b, dict) and b.get("post_read") is True and b.get("path_ok") is True and b.get("data") == a, pickle_handler),
     "pkl-post.gz": Kind("pkl-post.gz", ".pkl.gz", lambda c: {"payload": c}, lambda a, b: isinstance(b, dict) and b.get("post_read") is True and b.get("path_ok") is True and b.get("data") == a, pickle_handler),
@@ -167,6 +171,9 @@ CONFIGS = [
     ("full", "full", 0, 1, "ncgrp", "ncgrp", False),          # group-only NetCDF data whose structure changes when a period is overwritten
     ("full", "full", 0, 1, "pkl-args", "pkl-bound", True),    # read_args / write_args reach plain and bound-method user functions
     ("full", "noend", 1, 0, "pkl-bound", "pkl-bound", False),
+    ("full", "full", 0, 1, "pkl-guard", "pkl", False),        # a user-defined placeholder regex keeps a foreign file out of the fileset
+    ("full", "noend", 1, 0, "pkl-guard", "pkl-guard", False),
+    ("full", "full", 1, 0, "pkl-falsy", "pkl-falsy", False),  # falsy contents; everything also read back through collect()
 ]
 
 
@@ -193,7 +200,23 @@ class Side:
             kw["write_args"] = self.kind.write_args
         if self.kind.name.startswith("pkl-post"):
             kw["post_reader"] = post_reader
+        self.foreign = None
+        if self.kind.name == "pkl-guard":
+            kw["placeholder"] = {"tag": "[A-C]"}
         self.fs = FileSet(self.tmpl, name="side-" + os.path.basename(root), **kw)
+
+    def plant(self):
+        """A file that looks like one of the fileset's but carries a tag the fileset's own {tag} regex does not admit."""
+        if self.kind.name != "pkl-guard":
+            return
+        from typhon.files import FileSet
+        probe = FileSet(self.tmpl)
+        s, e = when(1, 1 if self.layout != "noend" else 0)
+        self.foreign = probe.get_filename((s, e), fill={"tag": "Q7"})
+        os.makedirs(os.path.dirname(self.foreign), exist_ok=True)
+        with open(self.foreign, "wb") as f:
+            pickle.dump({"payload": 99, "blob": b"foreign"}, f)
+        self.foreign_bytes = open(self.foreign, "rb").read()
 
     def snapshot(self):
         """-> sorted list of [key, content id]; raises AssertionError with a reason for stray / unreadable files"""
@@ -201,6 +224,8 @@ class Side:
         for d, _, files in os.walk(self.root):
             for f in files:
                 p = os.path.join(d, f)
+                if p == self.foreign:
+                    continue
                 self.fs.info_cache.pop(p, None)
                 try:
                     info = self.fs.get_info(p)
@@ -214,6 +239,19 @@ class Side:
                 data = self.fs.read(info)
                 cid = next((c for c in (1, 2, 3) if self.kind.same(self.kind.make(c), data)), -1)
                 out.append([[int(t0), int(dur), tag], cid])
+        if self.foreign is not None:
+            if not os.path.exists(self.foreign) or open(self.foreign, "rb").read() != self.foreign_bytes:
+                raise AssertionError("touched-foreign file (removed or rewritten): " + os.path.relpath(self.foreign, self.root))
+        if self.kind.name in ("pkl-falsy", "pkl-guard"):
+            # the same files through collect(): as many contents as files, the same multiset of contents
+            from typhon.files.fileset import NoFilesError
+            try:
+                datas = list(self.fs.collect())
+            except NoFilesError:
+                datas = []
+            cids = sorted(next((c for c in (1, 2, 3) if self.kind.same(self.kind.make(c), d_)), -1) for d_ in datas)
+            if cids != sorted(c for _, c in out):
+                raise AssertionError("miscollected files, collect() differs from the files on disk: %r vs %r" % (cids, sorted(c for _, c in out)))
         return sorted(out)
 
 
@@ -239,6 +277,7 @@ def replay(col, item):
         X = Side(os.path.join(root, "x"), LX, vx, kx)
         Y = Side(os.path.join(root, "y"), LY, vy, ky)
         os.makedirs(X.root), os.makedirs(Y.root)
+        X.plant(), Y.plant()
         sides = {"X": X, "Y": Y}
         hist = case["hist"]
         for step, h in enumerate(hist):
